@@ -181,12 +181,18 @@ def run (ops : List Op) : State := ops.foldl stepS init
 
 /-! ## line protocol -/
 
+/-- The request an `arrive c …` line stands for. Only `key=`, `inner=` and `callpanic=` are looked at. In
+particular the word `via=clone|template|swap|readyclone` — HOW the caller got hold of the `CoalesceService` handle
+it calls: a clone made for this request, the one handle everybody shares (a `&mut svc` used for several
+overlapping requests, never cloned), the `mem::replace` idiom, a clone of a handle that was polled ready — does
+not exist for the model: coalescing is a matter of the key and of what is in flight, not of the handle
+(`TR.Props.C11.caller_mode_irrelevant`). -/
+def arriveOp (c : Nat) (kv : Kv) : Op :=
+  .arrive c (kv.nat "key" 0) ((planOf kv).headD { lat := 0, out := .ok }) (kv.nat "callpanic" 0 == 1)
+
 def parseOp (ws : List String) : Option Op :=
   match ws with
-  | "arrive" :: c :: rest =>
-      let kv := parseKv rest
-      some (.arrive (c.toNat?.getD 0) (kv.nat "key" 0) ((planOf kv).headD { lat := 0, out := .ok })
-        (kv.nat "callpanic" 0 == 1))
+  | "arrive" :: c :: rest => some (arriveOp (c.toNat?.getD 0) (parseKv rest))
   | "poll" :: c :: _ => some (.poll (c.toNat?.getD 0))
   | "drop" :: c :: _ => some (.drop (c.toNat?.getD 0))
   | "adv" :: ms :: _ => some (.adv (ms.toNat?.getD 0))
@@ -290,6 +296,28 @@ def herdLine (kv : Kv) : String :=
   let t := herdTotals n m r rErr
   s!"herd rounds={r} calls={r * n} inner={t.1} shared={t.2} anomalies=0"
 
+/-! ### arrivals racing with a completion on real OS threads (`manual finish threads=N rounds=R …`)
+
+A separate instance again. N threads make R requests each (`gate=none`: back to back, completions and arrivals
+interleave as the machine schedules them; `gate=drop`: per round one request leads and completes while the other
+N-1 threads are made to arrive INSIDE its completion, through the destructor of the response value). No call future
+is ever dropped unfinished and no inner call panics. Under the model's assumption — one poll of a leader (inner
+result, publication, unregistration) is ONE step, as is one `call()` — every such execution is a sequence of
+`arrive` / `poll` operations without any `drop`, in which every script ends `ok` or `err`; then no `inner_drop` and no
+`inner_done … panic` is ever logged, and by `TR.Props.C11.no_cancellation_without_cause` nobody receives
+`leader_cancelled`; by `waiter_gets_leader_result` every coalesced request receives the value of the one call it
+joined, by `fresh_call_when_free` every other one leads a fresh call; by `one_inflight_per_key_trace` no two calls
+of a key overlap. Which requests coalesce depends on the schedule, so the line only carries what does not:
+the number of requests, and that none of them violated any of this. The harness run *searches* real schedules for
+an execution that is not such a sequence (seeded/C11-w4m2: the result is published before, and outside the
+critical section in which, the key is unregistered). -/
+
+/-- the line `manual finish …` must produce (same clamping of the arguments as in the harness) -/
+def finishLine (kv : Kv) : String :=
+  let n := min (max (kv.nat "threads" 2) 2) 32
+  let r := min (max (kv.nat "rounds" 100) 1) 1000000
+  s!"finish rounds={r} calls={r * n} anomalies=0"
+
 def machine : Machine where
   σ := State × List (Nat × (Nat × Step))
   init _ := (init, [])
@@ -301,6 +329,7 @@ def machine : Machine where
         | some c, some c2 => ((s, (c, (c2, (planOf kv).headD { lat := 0, out := .ok })) :: hooks), [])
         | _, _ => ((s, hooks), [])
     | "manual" :: "herd" :: rest => ((s, hooks), [.raw (herdLine (parseKv rest))])
+    | "manual" :: "finish" :: rest => ((s, hooks), [.raw (finishLine (parseKv rest))])
     | _ =>
     match parseOp ws with
     | some (.drop c) =>
